@@ -366,11 +366,16 @@ func (i *interpreter) callMethod(fr *frame, recv iface, name string) value {
 // non-decreasing symbolic instant.
 func timeValue(p *path) value {
 	st := p.st()
-	it := p.sched_
-	_ = it
+	const unixToInternal = 62135596800
+	const epoch = 1700000000 // the clock is never before 2023-11-14
+	if p.concreteClock {
+		p.clockTicks++
+		return structure{uint64(0), int64(epoch + p.clockTicks + unixToInternal), (*value)(nil)}
+	}
 	sec := st.FreshVar("now", BV(64))
-	// 0 <= sec < 2^40, non-decreasing
+	// epoch <= sec < 2^40, non-decreasing
 	p.assume(st.bvCmp("bvult", sec, st.BVConst(1<<40, 64)), false)
+	p.assume(st.bvCmp("bvule", st.BVConst(epoch, 64), sec), false)
 	if prev, ok := p.ufApps["__now"]; ok && len(prev) > 0 {
 		p.assume(st.bvCmp("bvule", prev[len(prev)-1], sec), false)
 		if p.timeStep > 0 {
@@ -378,7 +383,6 @@ func timeValue(p *path) value {
 		}
 	}
 	p.ufApps["__now"] = append(p.ufApps["__now"], sec)
-	const unixToInternal = 62135596800
 	ext := st.bvBin("bvadd", sec, st.BVConst(unixToInternal, 64))
 	return structure{uint64(0), value(ext), (*value)(nil)}
 }
